@@ -298,10 +298,11 @@ pub fn judge(project: &Project, case: &Value, reply: &Value) -> Vec<Violation> {
                                     detail: format!("blamed {paths:?}, touched {touched:?}"),
                                 });
                             }
-                            if !raw_paths.iter().all(|p| display.contains(p.as_str())) {
+                            // "descriptive": the message names the file (its name at least; how the path is printed is free)
+                            if !raw_paths.iter().all(|p| display.contains(p.rsplit('/').next().unwrap_or(p.as_str()))) {
                                 out.push(Violation {
                                     invariant: "descriptive_error".into(),
-                                    signature: format!("{stage}:{variant} message does not contain the path"),
+                                    signature: format!("{stage}:{variant} message does not name the file"),
                                     detail: display.chars().take(300).collect(),
                                 });
                             }
